@@ -20,6 +20,7 @@ import z3
 from pyvc.models.ext import CODEC_MAGIC, AvroHeader, MagicSeg
 
 from .streamlib import *  # noqa
+from pyvc.models.files import AbsRawFile  # noqa
 
 CODECS = {"none": "", "gzip": ".gz", "bz2": ".bz2", "lz4": ".lz4", "zstd": ".zstd", "zstd(.zst)": ".zst"}
 
@@ -116,6 +117,9 @@ def build(tier="quick", seed=0):
                 it.vfs["/abs/neutral.bin"] = AbsFile(it, content, mode="rb")
                 read("neutral path", args=["/abs/neutral.bin"])
             read("file object", fileobj=AbsFile(it, content, mode="rb"))
+            # a seekable file object without peek() (BytesIO, unbuffered file) that is positioned on the first byte of the data, behind other data
+            read("file object without peek(), positioned behind other data", fileobj=AbsRawFile(it, [b"<16 other bytes>"] + list(content), start=1, mode="rb"))
+            read("file object without peek()", fileobj=AbsRawFile(it, content, mode="rb"))
             stdin = AbsFile(it, content, mode="rb")
             L.module_models["sys"].stdin = types.SimpleNamespace(buffer=stdin)
             try:
@@ -193,7 +197,10 @@ def build(tier="quick", seed=0):
     def th_adapter_table():
         out = {}
         for url, want in (("/abs/a.records", "StreamWriter"), ("/abs/a.json", "JsonfileWriter"), ("/abs/a.jsonl", "JsonfileWriter"), ("/abs/a.avro", "AvroWriter"), ("csvfile:///abs/a.bin", "CsvfileWriter"),
-                          ("/abs/noext", "StreamWriter"), ("stream:///abs/a.json", "StreamWriter"), ("jsonfile:///abs/x.records", "JsonfileWriter"), ("text:///abs/a.txt", "TextWriter"), ("line:///abs/a.txt", "LineWriter")):
+                          ("/abs/noext", "StreamWriter"), ("stream:///abs/a.json", "StreamWriter"), ("jsonfile:///abs/x.records", "JsonfileWriter"), ("text:///abs/a.txt", "TextWriter"), ("line:///abs/a.txt", "LineWriter"),
+                          # the container follows THE extension of the name (the last one): a dotted part inside the name says nothing
+                          ("/abs/users.csv.records", "StreamWriter"), ("/abs/web.json.records.gz", "StreamWriter"), ("/abs/dump.avro.records.zst", "StreamWriter"), ("/abs/x.records.json", "JsonfileWriter"), ("/abs/v1.jsonl.avro", "AvroWriter"),
+                          ("/abs/dir.avro/plain.records", "StreamWriter")):
             fresh()
             w = it.call(base.g["RecordWriter"], [url], {})
             out[url] = (w.cls.name, want)
